@@ -415,6 +415,29 @@ func TestVerif_C10_Corpus(t *testing.T) {
 	t.Logf("replayed %d corpus cases", n)
 }
 
+// TestVerif_C10_File runs one plain file through a target: VERIF_C10_FILE=<path> VERIF_C10_TARGET=<target> (development
+// aid and manual replay of corpus files / raw fuzz crashers; for the chain target the file is a byte-codec input).
+func TestVerif_C10_File(t *testing.T) {
+	p := os.Getenv("VERIF_C10_FILE")
+	if p == "" {
+		t.Skip()
+	}
+	defer veriflib.Flush()
+	defer c10JournalEnd("")
+	b, err := os.ReadFile(p)
+	if err != nil {
+		t.Fatalf("harness: %v", err)
+	}
+	if bytes.HasPrefix(b, []byte("go test fuzz v1")) {
+		if b, err = c10ParseGoFuzz(string(b)); err != nil {
+			t.Fatalf("harness: %v", err)
+		}
+	}
+	c := c10FromBytes(os.Getenv("VERIF_C10_TARGET"), b)
+	c.Note = "file " + p
+	propC10(t, c)
+}
+
 // TestVerif_C10_ZzVerdict turns timeouts that did not reproduce into an "inconclusive" process exit (the driver
 // reports infrastructure trouble, exit 2, never a violation). Runs last in every unit.
 func TestVerif_C10_ZzVerdict(t *testing.T) {
